@@ -24,7 +24,8 @@ work() {
     if ! (cd $clone && (git apply $p 2>/dev/null || git apply -3 $p 2>/dev/null)); then printf "%s\tCONFLICT\t\n" "$s" >> /verif/seeded/RESULTS_par.tsv; continue; fi
     (cd $clone && git reset -q && go build ./... 2>&1 | head -2)
     det=""; und=0
-    for q in $prop ${EXTRA[$prop]}; do
+    extras="${EXTRA[$prop]}"; [ -n "${SEEDS_OWN_ONLY:-}" ] && extras=""   # SEEDS_OWN_ONLY=1: only the seed's own property
+    for q in $prop $extras; do
       out=$(cd $sv && $sv/bin/govc check -repo $clone -verif $sv $q 2>&1)
       d=$(echo "$out" | grep "^VIOLATION" | sed "s/^VIOLATION property=[A-Z0-9]* replay=[^ ]*\/replays\/\([^ ]*\)\.json.*/$q:\1/" | head -3 | tr '\n' ' ')
       det="$det$d"
